@@ -91,6 +91,15 @@ def outline_region(region, name, imports, intent_map=None):
     region_inout_args = region_uses_symbols & region_defines_symbols - imported_symbols
     region_out_args = region_defines_symbols - region_uses_symbols - imported_symbols
 
+    # Symbols that only appear in the declared shape of a variable used in the region
+    # are needed for the declarations in the new routine and therefore also passed in
+    shape_symbols = OrderedSet(
+        s.clone(dimensions=None) for v in FindVariables().visit(region.body)
+        for s in FindVariables().visit(as_tuple(getattr(v.type, 'shape', None)))
+    )
+    shape_symbols = shape_symbols - region_uses_symbols - region_defines_symbols - imported_symbols
+    region_in_args = region_in_args | shape_symbols
+
     # Remove any parameters from in args
     region_in_args = OrderedSet(arg for arg in region_in_args if not arg.type.parameter)
 
@@ -113,7 +122,7 @@ def outline_region(region, name, imports, intent_map=None):
     # and put all in the new scope
     region_routine_variables = tuple(
         v.clone(dimensions=v.type.shape or None, scope=region_routine)
-        for v in FindVariables().visit(region.body)
+        for v in tuple(FindVariables().visit(region.body)) + tuple(shape_symbols)
         if v.clone(dimensions=None) not in imported_symbols
     )
     # Filter out derived-type component variables from declarations
